@@ -12,6 +12,11 @@ CLAIMED = {
     text='Every MIR Assert, every library call with a panic precondition and every diverging call reachable from Message::try_from / from_bytes / Display / Debug is an obligation discharged by a sound abstract interpretation over arbitrary input bytes; loops are shown bounded (unrolled to completion or driven by finite iterators); every Ok state of try_from carries len = 7 or 14 as its DF id prescribes; reachable external callees carry no clock/random/env/IO effect.',
     note='Trusted: rustc MIR semantics at mir-opt-level 0, the library contracts in checker/models.py (deku 0.18 reads, core/alloc containers, fmt, regex-literal rule), totality of the listed trusted external crates, the engine itself. Allocation failure and stack exhaustion are out of scope. x86-64 usize.',
     ref='DESIGN.md §7 C01'),
+ 'C02': dict(level='other', engine='tables+absint',
+    technique='constant-table comparison against a generator; path-fact rules over the abstract states of the Message reader (DF id as a term of the first frame byte, provenance marker on the checksum)',
+    text='Decides: all 256 CRC table entries equal the remainder of i*x^24 by the Mode S generator; a frame goes on to DF decoding only in states that exclude DF 17 or have checksum 0, and the CRC error is raised only with id 17 and checksum >= 1; the checksum is computed over all 7/14 frame bytes in order and is the value stored as Message.crc and as the address/parity field of DF 0, 4, 5, 16, 20, 21; index obligations of modes_checksum. Does NOT decide that the byte loop computes polynomial division, nor the 1-2 bit / 24-bit burst clause (algebra over all frames).',
+    note='Static rule check, clause-limited as stated. Trusted: rustc constant evaluation and MIR, deku read contracts, the abstract interpreter.',
+    ref='DESIGN.md §7 C02'),
  'C16': dict(level='proof', engine='absint',
     technique='abstract interpretation of MIR with url/regex/serde-data contracts evaluated on the literals and data files; effect closure; format-template comparison',
     text='Every panic obligation below <Source as FromStr>::from_str and <Position as FromStr>::from_str is discharged for an arbitrary &str; constant-argument calls (Url::parse literal, Regex::new literals, the airports table parsed behind Lazy) are re-validated on the current literal / data file; Source::serial reaches no clock/random/env effect (DefaultHasher has fixed keys), formats the table form from exactly (address, port), with the same template as the string form.',
